@@ -399,6 +399,11 @@ class InverseMatcher(WrappingMatcher):
 
             break
 
+        # The loop above stops as soon as the child is exhausted, which can
+        # leave us on a missing document
+        while self._id < self.limit and missing(self._id):
+            self._id += 1
+
     def id(self):
         return self._id
 
